@@ -1,11 +1,39 @@
 (* C11 - operator status comes only from OPER and operator commands require it.  Statements
-   only; proofs in IRCP.OperP and IRCP.InvStep (delivery of pending KILLs).  That NO OTHER handler
-   writes the mode field is visible in the model (u_set_modes occurs in process_oper,
-   process_mode_user and new_user only) and is checked on every run by the state-dump comparison
-   and the oper_oracle of the correspondence check (level L2), not by a theorem. *)
+   only; proofs in IRCP.OperP, IRCP.ModesFrame, IRCP.OperGlobal and IRCP.InvStep (delivery of
+   pending KILLs). *)
 From IRC Require Import Str Wild Glob Parse Reply State Handlers Step.
-From IRCP Require Import MsgP InvDefs InvStep OperP.
+From IRCP Require Import MsgP InvDefs InvStep OperP ModesFrame OperGlobal.
 From stdpp Require Import gmap.
+
+(* THE global statement.  For every step of every connection i from a world satisfying the
+   invariant - any line, any event, registered or not -: a user who is an operator afterwards
+   either was one before (on the same connection, possibly under another nick), or belongs to
+   the acting connection itself and the line was an OPER that names a configured operator, with
+   the verifying password, from a matching source - or the connection has just registered and the
+   configured default user modes contain +o.  No other command sequence confers it. *)
+Theorem C11_operator_only_from_oper : forall cfg verify w i e w' o cl,
+  Inv w -> step cfg verify w i e = Ok (w', o, cl) ->
+  forall n u', users (sh w') !! n = Some u' -> um_oper (u_modes u') = true ->
+  (exists n0 u, users (sh w) !! n0 = Some u /\ u_conn u = u_conn u' /\ um_oper (u_modes u) = true) \/
+  (u_conn u' = i /\ exists c l, conns w !! i = Some c /\ e = EvLine l /\
+     ((c_auth c = true /\ exists msg name pw, tokenize l = inl msg /\ command_of_message msg = inl (OPER name pw) /\
+                                               oper_accepted cfg verify c name pw = true) \/
+      (c_auth c = false /\ um_oper (cfg_default_umodes cfg) = true))).
+Proof. exact oper_only_from_oper. Qed.
+
+(* every command of a registered connection other than OPER creates neither an operator nor a
+   local operator (all 40 other commands, by case analysis) *)
+Theorem C11_no_other_command_confers : forall cfg verify i s c cmd msg r,
+  InvS s -> conn_ok i s c -> c_auth c = true ->
+  dispatch cfg verify i s c cmd msg = Ok r -> (forall name pw, cmd <> OPER name pw) ->
+  no_new_oper s (h_sh r) /\ no_new_local_oper s (h_sh r).
+Proof. exact dispatch_no_new_oper. Qed.
+
+(* JOIN, PART, KICK, TOPIC, INVITE, channel MODE, KILL, DIE, AWAY leave every user's owner and
+   user modes as they were (records may lose memberships / gain marks, never modes) *)
+Theorem C11_modes_untouched_by_channel_commands : forall cfg i s c chs keys r,
+  process_join cfg i s c chs keys = Ok r -> keeps s (h_sh r).
+Proof. exact join_keeps. Qed.
 
 Section C11.
 Context (cfg : config) (verify : str -> str -> bool) (i : nat).
@@ -111,6 +139,9 @@ Proof. exact (stats_unprivileged cfg i). Qed.
 
 End C11.
 
+Print Assumptions C11_operator_only_from_oper.
+Print Assumptions C11_no_other_command_confers.
+Print Assumptions C11_modes_untouched_by_channel_commands.
 Print Assumptions C11_oper.
 Print Assumptions C11_mode_never_grants.
 Print Assumptions C11_foreign_modes_untouchable.
